@@ -104,7 +104,25 @@ pub fn check_case(ctx: &Ctx, tcs: &[String], cfg: &Cfg) {
             stage_fail("minimise", &d, "trie", "minimised", json!({"trie_states": st.trie.states.len(), "min_states": st.minimized.states.len()}));
         }
     }
-    // stage 4: eliminated expression vs minimised
+    // stage 4: eliminated expression vs minimised; stage 5: printed pattern vs expression.
+    // In verbose mode the expression string is a layout (newlines, unescaped spaces and '#') that only becomes a
+    // regex in RegExp's Display, so the two stages are compared as one: minimised vs printed pattern.
+    if cfg.has(X) {
+        if !cfg.has(NA | NE) {
+            match build_lang(tcs, cfg) {
+                Built::Ok { text, hir, .. } => {
+                    let mut it = Interner::default();
+                    let m = try_m!(dfa_nfa(&st.minimized, cfg, k, &mut it, false));
+                    let e = try_m!(Nfa::from_hir(&hir, &mut it));
+                    if let Some(d) = try_m!(cmp(ctx, m, e, it)) {
+                        stage_fail("eliminate+print", &d, "minimised", "pattern", json!({"expression": st.expression, "pattern": text}));
+                    }
+                }
+                Built::Panic(m) => crate::findings::report(ctx, viol("C16", "panic", "panic-in-build".into(), tcs, cfg, "", json!({"panic": m}))),
+                Built::Invalid { out, err } => crate::findings::report(ctx, viol("C16", "invalid", "stage:print:invalid".into(), tcs, cfg, &out, json!({"error": err}))),
+            }
+        }
+    } else {
     let prefix = if cfg.has(I) { "(?i)" } else { "" };
     let expr_pat = format!("{prefix}^(?:{})$", st.expression);
     match lang::parse(&expr_pat) {
@@ -129,6 +147,7 @@ pub fn check_case(ctx: &Ctx, tcs: &[String], cfg: &Cfg) {
             }
         }
         Err(e) => crate::findings::report(ctx, viol("C16", "invalid", format!("stage:eliminate:invalid flags={flags}"), tcs, cfg, &st.expression, json!({"error": e}))),
+    }
     }
     // determinism and minimality when every edge is one symbol
     if !cfg.has(R) {
